@@ -226,7 +226,9 @@ def rule_interface(repo, rep):
     ok = len(outs) == 1 and isinstance(outs[0].args[0], ast.ListComp) and norm(outs[0].args[0].generators[0].iter) == "sg.output_tensors"
     rep.check(ok, "C11-c", site, "written subgraph outputs iterate sg.output_tensors in order", "")
     ts = [s for s in walk_no_nested(f) if isinstance(s, ast.Assign) and norm(s.targets[0]) == "tensor_set"]
-    rep.check(len(ts) == 1 and norm(ts[0].value) in ("set(sg.original_inputs)", "dict.fromkeys(sg.original_inputs)"), "C11-c", site, "all original inputs are serialised as tensors even when unreferenced", "")
+    _v = ts[0].value if len(ts) == 1 else None
+    _dc = isinstance(_v, ast.DictComp) and isinstance(_v.key, ast.Name) and len(_v.generators) == 1 and norm(_v.generators[0].target) == _v.key.id and norm(_v.generators[0].iter) == "sg.original_inputs" and not _v.generators[0].ifs
+    rep.check(len(ts) == 1 and (norm(ts[0].value) in ("set(sg.original_inputs)", "dict.fromkeys(sg.original_inputs)") or _dc), "C11-c", site, "all original inputs are serialised as tensors even when unreferenced", "")
     # single writer of original_inputs
     writers = []
     for m in repo.core_modules():
